@@ -657,6 +657,40 @@ TRIAGED_SIBLINGS = {
 }
 
 
+INFER_ENTRY = {'infer_node', 'infer_call_of_leaf', 'infer_trailer', 'infer_atom', 'infer_expr_stmt'}
+TRIAGED_POSITIONAL = {
+    ('jedi.inference.syntax_tree', '_apply_decorators', 'context.infer_node(dec.children[1])'):
+        '`dec` comes from get_decorators(): decorator nodes by construction (parso/python/tree.py), children[1] is the decorator expression',
+}
+
+
+def _typed_by_origin(repo, f, var, use, depth=0):
+    """is the node held in local/parameter `var` of a known type by the way it was obtained: the result of
+    search_ancestor(<type names>), or a parameter that every call site fills with such a value / a positively tested one?"""
+    if not var.isidentifier():
+        return False
+    defs = [a for a in stmts_in(f, ast.Assign) if any(isinstance(t, ast.Name) and t.id == var for t in a.targets)]
+    if defs:
+        return all(isinstance(a.value, ast.Call) and call_name(a.value) == 'search_ancestor' and a.value.args
+                   and all(isinstance(x, ast.Constant) for x in a.value.args) for a in defs)
+    if var in params(f) and depth < 1:
+        idx = params(f).index(var)
+        sites = [c for c in repo.calls_of(f.name) if repo.enclosing_func(c) is not None]
+        if not sites:
+            return False
+        for c in sites:
+            if idx >= len(c.args) or not isinstance(c.args[idx], ast.Name):
+                return False
+            g = repo.enclosing_func(c)
+            a = c.args[idx].id
+            if gate(g, c, _positive_type_test(g, {a})) is None:
+                continue
+            if not _typed_by_origin(repo, g, a, c, depth + 1):
+                return False
+        return True
+    return False
+
+
 def _operands_type_tested(repo, f):
     """every sibling handed out by the walk in front of a '+' has passed a type test that excludes operators and keywords"""
     ys = [y for y in own_nodes(f) if isinstance(y, ast.Yield)]
@@ -781,6 +815,30 @@ def rule_j(repo, chk):
                        '' if facts else 'no positive type test of %s dominates the call: under an error_node (or any unforeseen parent) the siblings are arbitrary nodes' % ' / '.join(sorted(exprs)),
                        key='siblings|%s:%s|%s' % tk)
     chk.floor('C01.j', n, 8, '(children.index sites)')
+    # a child taken BY POSITION and handed to the inference entry points: the parent's type must be known positively (under an
+    # error_node the first child may be `return`, `x`, `=` ...: infer_node asserts on keywords and operators)
+    k = 0
+    for m in sorted(repo.modules.values(), key=lambda m: m.name):
+        for q, f in sorted(m.defs.items()):
+            if not isinstance(f, FUNC_TYPES):
+                continue
+            for c in own_nodes(f):
+                if not (isinstance(c, ast.Call) and call_name(c) in INFER_ENTRY):
+                    continue
+                for a in c.args:
+                    if isinstance(a, ast.Subscript) and isinstance(a.value, ast.Attribute) and a.value.attr == 'children' and not isinstance(a.slice, ast.Slice):
+                        par = norm(a.value.value)
+                        k += 1
+                        tk = (m.name, q, norm(c))
+                        if tk in TRIAGED_POSITIONAL:
+                            chk.ob('C01.j', True, c, '`%s`: triaged (%s)' % (short(c, 60), TRIAGED_POSITIONAL[tk]))
+                            continue
+                        w = gate(f, c, _positive_type_test(f, {par}))
+                        if w is not None and _typed_by_origin(repo, f, par, c):
+                            w = None
+                        chk.ob('C01.j', w is None, c, '`%s` in %s infers a child by position of a node whose type is known' % (short(c, 60), q),
+                               'no positive test of %s.type on the path: %s' % (par, w) if w else '', key='positional|%s:%s|%s' % tk)
+    chk.floor('C01.j', k, 8, '(children taken by position and inferred)')
 
 
 RULES = [('C01.a', rule_a), ('C01.b', rule_b), ('C01.c', rule_c), ('C01.d', rule_d), ('C01.e', rule_e), ('C01.f', rule_f),
